@@ -77,28 +77,12 @@ func (c *Ctx) primitiveSweep(maxP int) {
 	// extrusion of a shape along a path: path lengths 0..6 (fewer than 2 are rejected), shape sizes 0..6, open and closed
 	for pl := 0; pl <= 6; pl++ {
 		for sd := 0; sd <= 6; sd++ {
-			for cl := 0; cl <= 1; cl++ {
-				pl, sd, cl := pl, sd, cl
-				shape := make([]vector2.Float64, sd)
-				for j := range shape {
-					a := 2 * math.Pi * float64(j) / float64(sd)
-					shape[j] = vector2.New(math.Cos(a), math.Sin(a))
-				}
-				path := make([]vector3.Float64, pl)
-				p := vector3.Zero[float64]()
-				for j := range path {
-					p = p.Add(vector3.New(float64(c.Rng.Intn(3)), 1+float64(c.Rng.Intn(3)), float64(c.Rng.Intn(3)-1)))
-					path[j] = p
-				}
-				c.gen("extrude_shape", fmt.Sprintf("%d %d %d", pl, sd, cl), func() modeling.Mesh {
-					if cl == 1 {
-						return extrude.ClosedShape(shape, path)
-					}
-					return extrude.Shape(shape, path)
-				})
-			}
+			c.extrudeShapeCase(pl, sd, false)
+			c.extrudeShapeCase(pl, sd, true)
 		}
 	}
+	c.extrudeShapeCase(15, 3, true)
+	c.extrudeShapeCase(3, 15, false)
 	for n := 0; n <= 8; n++ {
 		n := n
 		lps := make([]extrude.LinePoint, n)
@@ -180,6 +164,30 @@ func (c *Ctx) primitiveSweep(maxP int) {
 		uv := primitives.DefaultCubeUVs()
 		uv.Top, uv.Left, uv.Back = nil, nil, nil
 		return primitives.Cube{Height: 1, Width: 2, Depth: 3, UVs: uv}.UnweldedQuads()
+	})
+}
+
+func (c *Ctx) extrudeShapeCase(pl, sd int, closed bool) {
+	shape := make([]vector2.Float64, sd)
+	for j := range shape {
+		a := 2 * math.Pi * float64(j) / float64(sd)
+		shape[j] = vector2.New(math.Cos(a), math.Sin(a))
+	}
+	path := make([]vector3.Float64, pl)
+	p := vector3.Zero[float64]()
+	for j := range path {
+		p = p.Add(vector3.New(float64(c.Rng.Intn(3)), 1+float64(c.Rng.Intn(3)), float64(c.Rng.Intn(3)-1)))
+		path[j] = p
+	}
+	cl := 0
+	if closed {
+		cl = 1
+	}
+	c.gen("extrude_shape", fmt.Sprintf("%d %d %d", pl, sd, cl), func() modeling.Mesh {
+		if closed {
+			return extrude.ClosedShape(shape, path)
+		}
+		return extrude.Shape(shape, path)
 	})
 }
 
@@ -431,10 +439,40 @@ func runC02(c *Ctx) {
 		maxP = 24
 	}
 	c.primitiveSweep(maxP)
+	// non-square parameters beyond the exhaustive square: rows >> columns and columns >> rows (an index expression
+	// that uses the wrong one of the two only shows when they differ, e.g. next-ring start `+ rows` for `+ columns`
+	// needs rows >= columns + 2)
+	for _, rc := range [][2]int{{20, 3}, {3, 20}, {12, 5}, {5, 12}, {9, 4}, {4, 9}, {33, 3}, {2, 40}} {
+		c.sphereFamily(rc[0], rc[1])
+	}
 	if c.Tier == "thorough" {
-		for i := 0; i < 200; i++ {
-			c.sphereFamily(2+c.Rng.Intn(63), 3+c.Rng.Intn(62))
-			c.sidesFamily(c.Rng.Intn(128))
+		for i := 0; i < 240; i++ {
+			// one parameter up to 512, the other bounded so that the index list stays below ~60 000 entries;
+			// 3 of 4 draws are far from square, both directions
+			a := 2 + c.Rng.Intn(511)
+			lim := 10000 / a
+			if lim < 4 {
+				lim = 4
+			}
+			b := 3 + c.Rng.Intn(lim)
+			switch i % 4 {
+			case 0:
+				c.sphereFamily(a, b) // rows large
+			case 1:
+				c.sphereFamily(b+2, a+1) // columns large
+			case 2:
+				c.sphereFamily(b+2+c.Rng.Intn(3), b) // rows = columns + 2..4
+			default:
+				c.sphereFamily(b, b+1+c.Rng.Intn(3))
+			}
+			c.sidesFamily(c.Rng.Intn(513))
+		}
+		for i := 0; i < 60; i++ {
+			pl, sd := 2+c.Rng.Intn(511), 3+c.Rng.Intn(12)
+			if i%2 == 0 {
+				pl, sd = 2+c.Rng.Intn(12), 3+c.Rng.Intn(510)
+			}
+			c.extrudeShapeCase(pl, sd, i%3 == 0)
 		}
 	}
 	c.opSequences(c.N)
